@@ -175,6 +175,38 @@ fn definite_comparison(
         return false;
     }
     let effective_op = if flipped { flip_op(op) } else { *op };
+    // Integer statistics against an integer literal are compared exactly:
+    // through f64, values beyond 2^53 collapse onto their neighbours and a
+    // group would be declared fully passing when it is not.
+    let int_stats: Option<(i64, i64)> = match stats {
+        ParquetStatistics::Int64(s) => match (s.min_opt(), s.max_opt()) {
+            (Some(a), Some(b)) => Some((*a, *b)),
+            _ => return false,
+        },
+        ParquetStatistics::Int32(s) => match (s.min_opt(), s.max_opt()) {
+            (Some(a), Some(b)) => Some((*a as i64, *b as i64)),
+            _ => return false,
+        },
+        _ => None,
+    };
+    let int_val: Option<i64> = match literal {
+        ScalarValue::Int64(v) => Some(*v),
+        ScalarValue::Int32(v) => Some(*v as i64),
+        ScalarValue::Date32(v) => Some(*v as i64),
+        ScalarValue::Timestamp(v) => Some(*v),
+        _ => None,
+    };
+    if let (Some((min, max)), Some(val)) = (int_stats, int_val) {
+        return match effective_op {
+            BinaryOp::Lt => max < val,
+            BinaryOp::LtEq => max <= val,
+            BinaryOp::Gt => min > val,
+            BinaryOp::GtEq => min >= val,
+            BinaryOp::Eq => min == val && max == val,
+            BinaryOp::NotEq => val < min || val > max,
+            _ => false,
+        };
+    }
     let (min, max): (f64, f64) = match stats {
         ParquetStatistics::Int64(s) => match (s.min_opt(), s.max_opt()) {
             (Some(a), Some(b)) => (*a as f64, *b as f64),
@@ -198,13 +230,21 @@ fn definite_comparison(
         ScalarValue::Timestamp(v) => *v as f64,
         _ => return false,
     };
+    // NaN never orders against a bound, and Parquet statistics leave NaN
+    // values out of min/max altogether: nothing can be proven.
+    if val.is_nan() || min.is_nan() || max.is_nan() {
+        return false;
+    }
+    // Same order as the row-level kernels (IEEE totalOrder: -0.0 < +0.0).
+    use std::cmp::Ordering::{Equal, Greater, Less};
+    let (lo, hi) = (min.total_cmp(&val), max.total_cmp(&val));
     match effective_op {
-        BinaryOp::Lt => max < val,
-        BinaryOp::LtEq => max <= val,
-        BinaryOp::Gt => min > val,
-        BinaryOp::GtEq => min >= val,
-        BinaryOp::Eq => min == val && max == val,
-        BinaryOp::NotEq => val < min || val > max,
+        BinaryOp::Lt => hi == Less,
+        BinaryOp::LtEq => hi != Greater,
+        BinaryOp::Gt => lo == Greater,
+        BinaryOp::GtEq => lo != Less,
+        BinaryOp::Eq => lo == Equal && hi == Equal,
+        BinaryOp::NotEq => lo == Greater || hi == Less,
         _ => false,
     }
 }
@@ -304,9 +344,10 @@ fn check_i32_stats(stats: &ParquetStatistics, op: BinaryOp, val: i32) -> bool {
             if s.min_opt().is_none() || s.max_opt().is_none() {
                 return true;
             }
-            let min = *s.min_opt().unwrap() as i32;
-            let max = *s.max_opt().unwrap() as i32;
-            eval_range_i32(op, val, min, max)
+            // Widen the literal; narrowing 64-bit bounds to i32 wraps them.
+            let min = *s.min_opt().unwrap();
+            let max = *s.max_opt().unwrap();
+            eval_range(op, val as i64, min, max)
         }
         _ => true,
     }
@@ -314,6 +355,11 @@ fn check_i32_stats(stats: &ParquetStatistics, op: BinaryOp, val: i32) -> bool {
 
 /// Check f64 statistics
 fn check_f64_stats(stats: &ParquetStatistics, op: BinaryOp, val: f64) -> bool {
+    // A NaN literal is outside every [min, max] test below, yet rows can
+    // still satisfy the comparison: never skip on it.
+    if val.is_nan() {
+        return true;
+    }
     match stats {
         ParquetStatistics::Double(s) => {
             if s.min_opt().is_none() || s.max_opt().is_none() {
@@ -384,13 +430,18 @@ fn eval_range_i32(op: BinaryOp, val: i32, min: i32, max: i32) -> bool {
 }
 
 fn eval_range_f64(op: BinaryOp, val: f64, min: f64, max: f64) -> bool {
+    // The row-level kernels order floats by IEEE totalOrder (-0.0 < +0.0),
+    // so the bounds must be tested in the same order or a group holding only
+    // the other zero is skipped.
+    use std::cmp::Ordering::{Equal, Greater, Less};
+    let (lo, hi) = (min.total_cmp(&val), max.total_cmp(&val));
     match op {
-        BinaryOp::Eq => min <= val && val <= max,
-        BinaryOp::NotEq => !(min == val && max == val),
-        BinaryOp::Lt => min < val,
-        BinaryOp::LtEq => min <= val,
-        BinaryOp::Gt => max > val,
-        BinaryOp::GtEq => max >= val,
+        BinaryOp::Eq => lo != Greater && hi != Less,
+        BinaryOp::NotEq => !(lo == Equal && hi == Equal),
+        BinaryOp::Lt => lo == Less,
+        BinaryOp::LtEq => lo != Greater,
+        BinaryOp::Gt => hi == Greater,
+        BinaryOp::GtEq => hi != Less,
         _ => true,
     }
 }
